@@ -98,4 +98,18 @@ def cumulative : List Nat → Nat → List Nat
   | [], _ => []
   | n :: ns, acc => (acc + n) :: cumulative ns (acc + n)
 
+/-- The functions of `redis/server.go` / `server_handler.go` that this file and `Exec.executeCommand` mirror, with the
+fingerprint of the source they were written from (see `Ex.modelled` for what the number is).  Regenerated and compared on
+every run (`source_conn_loop_is_the_modelled_one`): a changed connection loop is a loop the theorems about `serveLoop`
+have not been shown for. -/
+def connLoopModelled : List (String × Nat × String) := [
+  ("Server.serveConn", 10743545937290769133, "serveLoop"),
+  ("Server.receive", 412958942235522989, "serve (registration, releases)"),
+  ("Server.dispatch", 9739442017302085675, "reqStep (atomic step)"),
+  ("Server.handleMessage", 4115736628641310308, "handleMessage"),
+  ("Server.handleArrayMessage", 6979885149922757821, "handleMessage (array branch)"),
+  ("Server.responseMessage", 9955149415165850085, "replyBytes"),
+  ("Server.executeCommand", 11733987735526507935, "executeCommand"),
+  ("upperASCII", 11464278057085635175, "upperASCII")]
+
 end GoRedis
